@@ -1526,7 +1526,11 @@ def r5_constants(corpus: Corpus, rep: Report, tier: str):
             uses_splitlines = "splitlines" in _line_sources([meth])
             for fq in fqs:
                 bs |= {s.decode("latin1") for s in seps.get(fq, set())}
-            if uses_splitlines and not bs:
+            if uses_splitlines:
+                # lines cut at a subset of the splitlines boundaries and then split again with
+                # str.splitlines() end exactly at the splitlines boundaries
+                if not bs <= set(SPLITLINES_BOUNDARIES):
+                    raise Unsupported(f"{meth.fq}: separator {sorted(bs)} combined with splitlines()")
                 bs = set(SPLITLINES_BOUNDARIES)
             if not bs:
                 raise Unsupported(f"{meth.fq}: line separator not found")
